@@ -1001,7 +1001,7 @@ ensures
         r == (self.repaired@.contains_key(*hash) && self.repaired@[*hash].completed is Some),
 @*/
 /*@ extract src/consensus/blockstore/slot_block_data.rs :: impl SlotBlockData/fn add_shred_from_dissemination
-props C13
+props C13 C12
 ret r
 requires
         old(self).disseminated.wf(),
@@ -1013,6 +1013,17 @@ ensures
         // completed silently by dissemination (finding F31)
         r matches Ok(Some(BlockstoreEvent::Block { slot, block_info })) ==>
             !(old(self).repaired@.contains_key(block_info.hash) && old(self).repaired@[block_info.hash].completed is Some),
+        // [C12.second_commitment_for_a_slice_is_equivocation C13.conflicting_slices_are_equivocation] what BlockData::add_shred
+        // reports reaches the caller: a second, different signed commitment for a slice is equivocation in every state of the
+        // slot that is not flagged yet - also after the block is complete - and so are contradictory last-slice markers
+        (!old(self).leader_misbehaved && old(self).disseminated.cc().contains_key(shred.spec_payload().header.slice_index)
+            && old(self).disseminated.cc()[shred.spec_payload().header.slice_index] != shred.spec_commitment())
+            ==> r == Err::<Option<BlockstoreEvent>, AddShredError>(AddShredError::Equivocation) && final(self).disseminated.completed == old(self).disseminated.completed,
+        // [C13.contradictory_last_slice_markers_are_equivocation]
+        (!old(self).leader_misbehaved && !(old(self).disseminated.cc().contains_key(shred.spec_payload().header.slice_index)
+            && old(self).disseminated.cc()[shred.spec_payload().header.slice_index] != shred.spec_commitment())
+          && (old(self).disseminated.last_slice matches Some(l) && !BlockData::last_consistent(l, shred.spec_payload().header.slice_index, shred.spec_payload().header.is_last)))
+            ==> r == Err::<Option<BlockstoreEvent>, AddShredError>(AddShredError::Equivocation),
         // [C13.nothing_from_dissemination_after_misbehaviour]
         old(self).leader_misbehaved ==> r is Err && final(self).disseminated == old(self).disseminated,
         final(self).leader_misbehaved == old(self).leader_misbehaved && final(self).repaired == old(self).repaired,
